@@ -234,6 +234,14 @@ def run_scale(case):
     if np.linalg.norm(true_cf[idx].translation) > 0.05:
         res = LighthouseSystemScaler.scale_fixed_point(est_bs, est_cf, true_cf[idx].translation.copy(), est_cf[idx])
         check('fixed-point', res, k)
+        turn = case.get('ref_turn', 0)
+        if turn:
+            # the system is only roughly aligned when it is scaled: the reference lies in a slightly different direction than the
+            # estimated position, the factor is still the one that makes the distance right
+            ref = _rot([0.3, -0.2, 1.0], math.radians(turn)) @ true_cf[idx].translation
+            res = LighthouseSystemScaler.scale_fixed_point(est_bs, est_cf, ref, est_cf[idx])
+            check('fixed-point-other-direction', res, k)
+            out.feat('reference-direction-off')
     # diagonals: with the geometric sensor diagonal as reference the true system comes back
     true_diag = float(np.linalg.norm(sens[0] - sens[3]))
     res = LighthouseSystemScaler.scale_diagonals(est_bs, est_cf, samples, true_diag)
@@ -282,7 +290,7 @@ def scale_case(draw):
     cfs = [{'pos': [draw(st.floats(-1, 1)), draw(st.floats(-1, 1)), draw(st.floats(0.0, 1.0))], 'yaw': draw(st.floats(-math.pi, math.pi)),
             'tilt': draw(st.sampled_from([0.0, 0.0, 5.0, 10.0, 20.0])), 'axis': [draw(st.floats(-1, 1)), draw(st.floats(-1, 1)) + 1.5, 0.0]} for _ in range(m)]
     return {'stations': stations, 'cfs': cfs, 'k': draw(st.one_of(st.floats(0.2, 5.0), st.sampled_from([1.0, 0.5, 2.0, 1.26]))), 'ref': draw(st.integers(0, 4)),
-            'alias': draw(st.sampled_from([False, False, True]))}
+            'alias': draw(st.sampled_from([False, False, True])), 'ref_turn': draw(st.sampled_from([0, 2, 10, 25]))}
 
 
 def subchecks(tier):
